@@ -200,6 +200,13 @@ pub fn check(tier: Tier) -> i32 {
 	report.set("option_sets", json!(opts.iter().map(|o| o.to_json()).collect::<Vec<_>>()));
 	report.set("failures_per_class", json!(stats.per_class));
 	report.assume("option sets and the 2-key/4-kind alphabet are fixed finite lists, not exhaustive over configurations/inputs");
-	report.assume("background tasks run only at G and at close (single-threaded runtime driven by the harness); thread interleavings are C05/C17's subject");
+	report.assume("sequential parts: background tasks run only at G and at close (single-threaded runtime driven by the harness)");
+	// schedule part: two flushers (background flush and a checkpoint's synchronous flush) at once
+	let code = crate::props::sched::run_into(&mut report, "C06", tier, if tier == Tier::Quick { 8.0 } else { 120.0 });
+	if code != 0 {
+		return code;
+	}
+	let ex = report.coverage.get("exhaustive").and_then(|v| v.as_bool()).unwrap_or(true);
+	report.set("exhaustive", json!(ex && all_complete));
 	report.finish()
 }
